@@ -114,11 +114,11 @@ def cdm(
         # Later, this will be checked in when YAML configuration file is parsed
         raise TypeError("Expecting a `CCD` object for 'detector'.")
 
-    if not (0.0 <= max_electron_volume <= 1.0):
+    if not (0.0 < max_electron_volume <= 1.0):
         raise ValueError("'max_electron_volume' must be between 0.0 and 1.0.")
     if not (0.0 <= beta <= 1.0):
         raise ValueError("'beta' must be between 0.0 and 1.0.")
-    if not (0.0 <= fwc_final <= 1.0e7):
+    if not (0.0 < fwc_final <= 1.0e7):
         raise ValueError("'full_well_capacity' must be between 0 and 1e7.")
     if not (0.0 <= transfer_period <= 10.0):
         raise ValueError("'transfer_period' must be between 0.0 and 10.0.")
